@@ -150,7 +150,8 @@ def parseCal (e : SExp) : Option (Option Calibrator) :=
     let ts ← terms.mapM (fun t => match t with
       | .list [c, n] => do
         let c ← c.val?; let n ← n.int?
-        pure ((valRat c).map (fun q => ({ coef := q, exp := n } : PolyTerm)))
+        let isI := match c with | PyVal.int _ => true | _ => false
+        pure ((valRat c).map (fun q => ({ coef := q, exp := n, isInt := isI } : PolyTerm)))
       | _ => none)
     pure ((ts.mapM id).map Calibrator.poly)
   | .list (.atom "spline" :: o :: x :: pts) => do
